@@ -731,7 +731,7 @@ def run(ctx):
         lines, impl, fails = run_ops(dc, ops)
         ctx.case(('corpus', name), sample={'corpus': name, 'answers': impl[-2:]}, kind='corpus')
         report(ctx, name, dc, ops, lines, impl, fails, expect)
-    n = ctx.budget(1500, 20000)
+    n = ctx.budget(1500, 11000)
     for h in range(n):
         if _unknown[0] >= 12:
             ctx.note('stopped after 12 histories with unlisted oracle failures')
